@@ -46,6 +46,26 @@ func (e *Env) buildV3() (string, string) {
 	return bin, "ran"
 }
 
+// simrun386 is the library on a 32-bit platform (GOARCH=386; the kernel
+// of this sandbox runs such binaries): int and uint are 32 bits wide, the
+// portable code paths are selected.  The statements of C08, C09, C14, C18
+// and C03 name no platform.
+var simrun386 = Variant{Name: "386", Pkg: "./cmd/simrun", Tags: "verif", Env: []string{"GOARCH=386"}}
+
+// build386 builds the 32-bit variant and checks that it runs here.
+func (e *Env) build386() (string, string) {
+	bin, err := e.Build(simrun386)
+	if err != nil {
+		Logf("the GOARCH=386 build failed: skipped\n%v", err)
+		return "", "skipped: does not build for GOARCH=386"
+	}
+	if out, err := exec.Command(bin, "-selftest").CombinedOutput(); err != nil {
+		Logf("this machine does not run GOARCH=386 binaries (%v: %s): skipped", err, strings.TrimSpace(string(out)))
+		return "", "skipped: this machine does not run GOARCH=386 binaries"
+	}
+	return bin, "ran"
+}
+
 // simStall is the stall world: a test binary built with the newer toolchain
 // of the sandbox, because it runs the signers inside testing/synctest bubbles
 // (fake clock, quiescence detection).
@@ -145,6 +165,10 @@ func (e *Env) roundsUntil(prop string, a *Agg, budget time.Duration, minRounds i
 	return traced, nil
 }
 
+// first386 is the first run index of the histories executed on the 32-bit
+// platform (far away from the indices of the other jobs).
+const first386 = 9000000
+
 // CheckSign decides C09, C08 or C14 in world `sign`.
 func CheckSign(e *Env, prop string) (int, error) {
 	bin, err := e.Build(simrunAsm)
@@ -161,6 +185,12 @@ func CheckSign(e *Env, prop string) (int, error) {
 	stallRuns := 4000
 	if e.Tier == "thorough" {
 		stallRuns = 64000
+	}
+	// a few histories on a 32-bit platform (several times slower there)
+	bin386, state386 := e.build386()
+	n386 := 16
+	if e.Tier == "thorough" {
+		n386 = 160
 	}
 	a := newAgg()
 	budget := budgetSeconds(e.Tier, 45, 840)
@@ -184,6 +214,9 @@ func CheckSign(e *Env, prop string) (int, error) {
 				// signers whose entropy reader stalls, under a simulated clock
 				jobs = append(jobs, SplitRuns(stallBin, simStall.Name, "stall", prop, 0, stallRuns, stallRuns/16)...)
 			}
+			if bin386 != "" {
+				jobs = append(jobs, SplitRuns(bin386, simrun386.Name, "sign", prop, first386, n386, n386/8)...)
+			}
 			return jobs
 		}
 		jobs = SplitRuns(bin, "asm", "sign", prop, round*perRound, perRound, perJob)
@@ -201,6 +234,9 @@ func CheckSign(e *Env, prop string) (int, error) {
 	out, err := e.conclude(prop, a, func(r *kernel.Result) (string, string) {
 		if r.World == "stall" {
 			return stallBin, simStall.Name
+		}
+		if r.Variant == simrun386.Name {
+			return bin386, simrun386.Name
 		}
 		return bin, "asm"
 	}, budgetSeconds(e.Tier, 60, 300))
@@ -224,6 +260,7 @@ func CheckSign(e *Env, prop string) (int, error) {
 		"distinct_nontrivial":                   sampledNontrivial + a.EnumDistinctNontrivial,
 		"sampled_histories":                     a.ByWorld["sign"] + a.ByWorld["pool"] + a.ByWorld["stall"],
 		"stall_world":                           map[string]any{"state": stallState, "runs": a.ByWorld["stall"], "simulated_clock_ms": a.StallMS, "what": "one signing call per run inside a testing/synctest bubble (go1.26.8): the entropy reader delivers 0..31 bytes in short reads and then blocks for 1 s .. 1000 h of simulated time before failing; the signer is looked at after 1 ms / 5 s / 10 min of simulated time and must still be waiting, and must fail with its reader afterwards. Every timer the library arms reads the fake clock."},
+		"platform_386":                          map[string]any{"state": state386, "runs": a.Variants[simrun386.Name], "what": "sign-world histories executed by a GOARCH=386 build of the library and the harness (32-bit int/uint, portable code paths); same oracles"},
 		"sampled_distinct_nontrivial_histories": sampledNontrivial,
 		"enumerated_distinct_nontrivial_cases":  a.EnumDistinctNontrivial,
 		"rule":                                  rule,
